@@ -816,7 +816,11 @@ def _write_scope_layers(
 
     outer = layers[0]
     outer_scope = outer["scope"]
-    expr.scope = outer_scope if isinstance(outer_scope, Scope) else Scope(outer_scope)
+    expr.scope = (
+        outer_scope
+        if isinstance(outer_scope, Scope)
+        else Scope(outer_scope, owner=expr)
+    )
     expr.scope_state = ScopeState(
         body_before=list(outer["body_before"]),
         body_after=list(outer["body_after"]),
